@@ -77,6 +77,20 @@ def scenarios(tier):
                 origins=og, dns={'adv.test': '10.0.0.9', 'up1.test': '10.0.0.8'}, kinds='', horizon=900,
                 min_time=4.0,
                 features={'mode': mode, 'role': 'idle', 'history': name, 'repetitions': 1}, setup=_setup))
+    # the upstream connection pool (--enable-conn-pool) has its own release / bookkeeping paths
+    for mode in ('local', 'remote'):
+        fa, fo = c05.flags_for(mode)
+        for (name, role, script, origins, dns, net) in c05.adversaries(tier):
+            if role not in ('forward', 'tunnel') or (tier == 'quick' and name.startswith('fwd-trunc')):
+                continue
+            for reps in (1, 3):
+                clients = [dict(script=script, start_turn=(0 if i == 0 else 'idle')) for i in range(reps)]
+                out.append(Scenario(
+                    '%s/pool/%s/x%d' % (mode, name, reps), fa + ['--timeout', '1', '--enable-conn-pool'], flags_opts=fo,
+                    mode=mode, clients=clients, origins=origins, dns=dns, net=net,
+                    kinds='F' if reps == 1 else '', horizon=900,
+                    features={'mode': mode, 'role': role, 'history': name, 'repetitions': reps, 'conn_pool': True},
+                    setup=_setup))
     # work initialisation failure (TLS front, client botches the handshake): nothing may stay behind
     for sc in c05.tls_front_scenarios(tier):
         sc.setup = _setup
